@@ -203,6 +203,9 @@ def check(part, ops, inputs):
     size = len(ops) * 100 + len(program) + len(inputs)
     tags = {"last": ops[-1][0] if ops else "", "n_inputs": len(inputs)}
     part.outcome((len(m.log), m.scopes[0][1] % max(1, len(inputs))))
+    if isinstance(r.exc, sandbox.CaseTimeout):
+        part.cap("backstop hit (slow is not wrong): " + program)
+        return
     if r.exc is not None:
         part.violation("reads", case, "read history raises on the real interpreter", dict(tags, what="raises " + type(r.exc).__name__),
                        "runs", "%s: %s" % (type(r.exc).__name__, str(r.exc)[:80]), size=size)
